@@ -232,6 +232,40 @@ pub fn as_str_list(raw: &[u8]) -> Option<Vec<Vec<u8>>> {
     Some(v)
 }
 
+/// `raw` is exactly one canonically framed item and, if it is a list, so is everything inside it at
+/// every depth. Iterative (inputs may be nested tens of thousands of levels deep).
+pub fn deep_canonical(raw: &[u8]) -> bool {
+    let Ok(h) = header(raw, true) else { return false };
+    if h.total() != raw.len() {
+        return false;
+    }
+    if !h.list {
+        return true;
+    }
+    // stack of payload slices still to tile
+    let mut stack: Vec<&[u8]> = vec![&raw[h.hlen..]];
+    while let Some(mut p) = stack.pop() {
+        while !p.is_empty() {
+            let Ok(ih) = header(p, true) else { return false };
+            let (item, rest) = p.split_at(ih.total());
+            if ih.list {
+                stack.push(&item[ih.hlen..]);
+            }
+            p = rest;
+        }
+    }
+    true
+}
+
+/// A list nested `levels` deep around an empty list: [[[...[]...]]].
+pub fn deep_nest(levels: usize) -> Vec<u8> {
+    let mut cur = vec![0xc0u8];
+    for _ in 0..levels {
+        cur = enc_list_payload(&cur);
+    }
+    cur
+}
+
 #[cfg(test)]
 mod t {
     use super::*;
